@@ -160,36 +160,48 @@ theorem treeInsert_sorted (s : SState) (k : Bytes) (i : Idx) (h : NutsProofs.Sor
 
 /-! ### `Get` along every history -/
 
-open NutsProofs.SparseGet in
-/-- histories: write transactions of key/value records (one id per transaction, no empty key) whose `Commit`
-returned success, from a fresh sparse-mode database -/
-def SOpsOk : SState → List (List Rec) → Prop
-  | _, [] => True
-  | s, t :: rest => t ≠ [] ∧ (∃ tid, KVTx tid t) ∧ (Sparse.commit s t).2 = .ok () ∧ SOpsOk (Sparse.commit s t).1 rest
+/-- histories: write transactions of key/value records, and clean reopens (with any segment size) -/
+inductive SOp where
+  | commit (t : List Rec)
+  | reopen (seg : Nat)
+
+def stepS (s : SState) : SOp → SState
+  | .commit t => (Sparse.commit s t).1
+  | .reopen g => (Sparse.openDB g s.files s.sealed s.metas).1
 
 open NutsProofs.SparseGet in
-theorem good_history : ∀ (ops : List (List Rec)) (s : SState), Good s → SOpsOk s ops →
-    Good (ops.foldl (fun s t => (Sparse.commit s t).1) s) := by
+/-- every transaction has one id, no empty key, and its `Commit` returned success -/
+def SOpsOk : SState → List SOp → Prop
+  | _, [] => True
+  | s, .commit t :: rest => t ≠ [] ∧ (∃ tid, KVTx tid t) ∧ (Sparse.commit s t).2 = .ok () ∧ SOpsOk (Sparse.commit s t).1 rest
+  | s, .reopen g :: rest => SOpsOk (Sparse.openDB g s.files s.sealed s.metas).1 rest
+
+open NutsProofs.SparseGet in
+theorem good_history : ∀ (ops : List SOp) (s : SState), Good s → SOpsOk s ops → Good (ops.foldl stepS s) := by
   intro ops
   induction ops with
   | nil => intro s h _; exact h
-  | cons t rest ih =>
+  | cons op rest ih =>
     intro s h hok
-    obtain ⟨hne, ⟨tid, htx⟩, hc, hrest⟩ := hok
-    exact ih _ (commit_inv s t tid h hne htx hc).1 hrest
+    cases op with
+    | commit t =>
+      obtain ⟨hne, ⟨tid, htx⟩, hc, hrest⟩ := hok
+      exact ih _ (commit_inv s t tid h hne htx hc).1 hrest
+    | reopen g => exact ih _ (reopen_good s h g) hok
 
 open NutsProofs.SparseGet in
-/-- **C02, `Get`, every history.** Take any sequence of successfully committed key/value transactions on a
-fresh sparse-mode database — any number of records per transaction, any segment size, rotations wherever they
-fall (inside a transaction too). Then `Get(bucket, key)` returns the **latest record written under the
-composite key `bucket ++ key`** — searching the active tree, then the sealed segments newest first through
-their key ranges — when that record is live at `now`, and "not found" when there is none or it is a tombstone
-or has expired. Spans, key ranges, per-segment transaction-id sets and the read-back from the data file are all
-inside the theorem; the composite key is the exact content of finding D-SPARSE-CONCAT: for databases in which
-no two (bucket, key) pairs concatenate to the same bytes this *is* the ordered map with TTL. -/
-theorem C02_get_is_latest_of_composite_key (seg : Nat) (ops : List (List Rec))
+/-- **C02, `Get`, every history.** Take any sequence of successfully committed key/value transactions and clean
+reopens on a fresh sparse-mode database — any number of records per transaction, any segment size (it may change
+at a reopen), rotations wherever they fall (inside a transaction too). Then `Get(bucket, key)` returns the
+**latest record written under the composite key `bucket ++ key`** — searching the active tree, then the sealed
+segments newest first through their key ranges — when that record is live at `now`, and "not found" when there
+is none or it is a tombstone or has expired. Key ranges, per-segment transaction-id sets, the rebuild of the
+active tree at `Open` and the read-back from the data file are all inside the theorem; the composite key is the
+exact content of finding D-SPARSE-CONCAT: for databases in which no two (bucket, key) pairs concatenate to the
+same bytes this *is* the ordered map with TTL. -/
+theorem C02_get_is_latest_of_composite_key (seg : Nat) (ops : List SOp)
     (hok : SOpsOk (Sparse.openDB seg [] [] []).1 ops) (b k : Bytes) (now : Nat) :
-    let s := ops.foldl (fun s t => (Sparse.commit s t).1) (Sparse.openDB seg [] [] []).1
+    let s := ops.foldl stepS (Sparse.openDB seg [] [] []).1
     Sparse.get s b k now = match latestFile s.files.reverse (b ++ k) with
       | some r => judged r now
       | none => .err := by
@@ -197,24 +209,26 @@ theorem C02_get_is_latest_of_composite_key (seg : Nat) (ops : List (List Rec))
   exact get_spec s (good_history ops _ (good_init seg) hok).1 b k now
 
 /-- a history that rotates three times (100-byte segments), overwrites a key across segments and deletes one -/
-def wHist : List (List Rec) :=
-  [[{ (mkRec [97] [107, 49] [120] flagSet dsKV) with txid := 1 }],
-   [{ (mkRec [97] [107, 50] [120] flagSet dsKV) with txid := 2 }, { (mkRec [97] [107, 51] [120] flagSet dsKV) with txid := 2 }],
-   [{ (mkRec [97] [107, 49] [121] flagSet dsKV) with txid := 3 }, { (mkRec [97] [107, 52] [120] flagSet dsKV) with txid := 3 }],
-   [{ (mkRec [97] [107, 50] [] flagDelete dsKV) with txid := 4 }, { (mkRec [97] [107, 53] [120] flagSet dsKV) with txid := 4 }],
-   [{ (mkRec [97] [107, 54] [120] flagSet dsKV) with txid := 5 }]]
+def wHist : List SOp :=
+  [.commit [{ (mkRec [97] [107, 49] [120] flagSet dsKV) with txid := 1 }],
+   .commit [{ (mkRec [97] [107, 50] [120] flagSet dsKV) with txid := 2 }, { (mkRec [97] [107, 51] [120] flagSet dsKV) with txid := 2 }],
+   .commit [{ (mkRec [97] [107, 49] [121] flagSet dsKV) with txid := 3 }, { (mkRec [97] [107, 52] [120] flagSet dsKV) with txid := 3 }],
+   .reopen 100,
+   .commit [{ (mkRec [97] [107, 50] [] flagDelete dsKV) with txid := 4 }, { (mkRec [97] [107, 53] [120] flagSet dsKV) with txid := 4 }],
+   .commit [{ (mkRec [97] [107, 54] [120] flagSet dsKV) with txid := 5 }]]
 
 open NutsProofs.SparseGet in
-/-- non-vacuity: the history above meets the hypotheses, seals three segments (100-byte segments, two records each; transactions span rotations), and `Get` answers across them -/
+/-- non-vacuity: the history above meets the hypotheses, seals three segments (100-byte segments, two records
+each; transactions span rotations), reopens in the middle, and `Get` answers across the segments -/
 theorem C02_witness_history :
     SOpsOk (Sparse.openDB 100 [] [] []).1 wHist ∧
-    ((wHist.foldl (fun s t => (Sparse.commit s t).1) (Sparse.openDB 100 [] [] []).1).sealed.map (·.fid)) = [0, 1, 2] ∧
-    (Sparse.get (wHist.foldl (fun s t => (Sparse.commit s t).1) (Sparse.openDB 100 [] [] []).1) [97] [107, 49] 0).map
+    ((wHist.foldl stepS (Sparse.openDB 100 [] [] []).1).sealed.map (·.fid)) = [0, 1, 2] ∧
+    (Sparse.get (wHist.foldl stepS (Sparse.openDB 100 [] [] []).1) [97] [107, 49] 0).map
       (fun o => o.map (·.value)) = .ok (some [121]) ∧
-    Sparse.get (wHist.foldl (fun s t => (Sparse.commit s t).1) (Sparse.openDB 100 [] [] []).1) [97] [107, 50] 0 = .err := by
+    Sparse.get (wHist.foldl stepS (Sparse.openDB 100 [] [] []).1) [97] [107, 50] 0 = .err := by
   refine ⟨?_, by decide +kernel, by decide +kernel, by decide +kernel⟩
-  refine ⟨by simp [wHist], ⟨1, ?_⟩, by decide +kernel, by simp [wHist], ⟨2, ?_⟩, by decide +kernel, by simp [wHist], ⟨3, ?_⟩, by decide +kernel,
-    by simp [wHist], ⟨4, ?_⟩, by decide +kernel, by simp [wHist], ⟨5, ?_⟩, by decide +kernel, trivial⟩
+  refine ⟨by simp, ⟨1, ?_⟩, by decide +kernel, by simp, ⟨2, ?_⟩, by decide +kernel, by simp, ⟨3, ?_⟩, by decide +kernel,
+    by simp, ⟨4, ?_⟩, by decide +kernel, by simp, ⟨5, ?_⟩, by decide +kernel, trivial⟩
   all_goals
     intro r hr
     simp only [List.mem_cons, List.mem_nil_iff, or_false] at hr
